@@ -20,6 +20,8 @@
 //! Nothing is demanded after a non-exhaustive collection (a nursery collection legitimately keeps
 //! old garbage valid); the dead objects it forgets stay in the log until the next exhaustive one.
 
+#![cfg(feature = "vo_bit")]
+
 use crate::common::{catch, Run, Tier};
 use crate::progs::{Alphabet, Op, ProgFacts};
 use crate::shadow_check::{count, panic_slug, Profile};
